@@ -48,10 +48,26 @@ pub fn eval(expr: Node) -> Result<Complex<f64>, Box<dyn error::Error>> {
         Abs(sub_expr) => Ok(Complex::new(eval(*sub_expr)?.norm(), 0.0)),
         Sin(sub_expr) => Ok(eval(*sub_expr)?.sin()),
         Cos(sub_expr) => Ok(eval(*sub_expr)?.cos()),
-        Tan(sub_expr) => Ok(eval(*sub_expr)?.tan()),
+        Tan(sub_expr) => {
+            let z = eval(*sub_expr)?;
+            if z.im.abs() > 20.0 {
+                // cosh(2 im) overflows long after tan has reached +-i to full precision
+                Ok(Complex::new(0.0, z.im.signum()))
+            } else {
+                Ok(z.tan())
+            }
+        }
         Sinh(sub_expr) => Ok(eval(*sub_expr)?.sinh()),
         Cosh(sub_expr) => Ok(eval(*sub_expr)?.cosh()),
-        Tanh(sub_expr) => Ok(eval(*sub_expr)?.tanh()),
+        Tanh(sub_expr) => {
+            let z = eval(*sub_expr)?;
+            if z.re.abs() > 20.0 {
+                // cosh(2 re) overflows long after tanh has reached +-1 to full precision
+                Ok(Complex::new(z.re.signum(), 0.0))
+            } else {
+                Ok(z.tanh())
+            }
+        }
         Asin(sub_expr) => Ok(eval(*sub_expr)?.asin()),
         Acos(sub_expr) => Ok(eval(*sub_expr)?.acos()),
         Atan(sub_expr) => Ok(eval(*sub_expr)?.atan()),
